@@ -13,7 +13,7 @@ Extraction "svmodel.ml"
   with_defaults with_overrides with_environment effective dwith_defaults dwith_overrides lookup precedence_b tempty dempty
   tc_default_markdown tc_default_cram default_skip_document_code default_document_timeout_ms
   exec exec_timed limits_of gs_of doc_results verdict exit_status effective_limit count is_success is_failure is_skipped is_reported
-  exec_script run_docs run_exit run_outcomes stream_ok
+  exec_script exec_script2 run_docs run_exit run_outcomes stream_ok
   utf8_decode utf8_encode is_other has_unprintable escaped_printable escaped_expectation decode escaped_matches trim_newlines printable
   split_mod extract parse render_exp matches_content lookup_kind kind_names expression_as_escaped
   m_equal m_noeol m_escaped glob_match full print_top cram_glob_re
